@@ -19,7 +19,10 @@ nor mutate in place, nor create an alias/view of a protected variable:
   `Y = X`, `Y = X[:, :k]`, `foo(X)`, `[X, ...]` outside the list grammar, `for t in (X, Y): ...` -- fails;
 * `hc` may only be read as `hc["key"]`; any other `.hc` attribute access fails;
 * nested functions / lambdas / classes that mention a name which is protected at any time fail
-  (a closure could write the variable later), as do `exec`, `eval`, `locals`, `vars`, `globals`.
+  (a closure could write the variable later), as do `exec`, `eval`, `locals`, `vars`, `globals`;
+* a `return` / `yield` inside a skipped statement fails (the modelled statements are read as straight-line code);
+  statements after the `return` of the result, a second pole computation / `SC_apply` / binding of `hc`, re-binding
+  of `gen`, `np`, `self`, `len`, ... fail.
 
 One in-place form is modelled instead of refused: `X[np.logical_not(m)] = np.nan` with `X` a tracked table and `m` a
 tracked mask is `Stmt.blank X m` (the `np.where(m, X, nan)` of `applymask`, written into the same object).  Because
@@ -129,6 +132,7 @@ class Tr:
         self.inplace = set()  # caller variables overwritten in place by conditional rebindings inside a helper
         self.poisoned = set()  # ... that the caller did NOT re-bind from the helper's results: any later use fails closed
         self.np_ok = True  # the module binds `np` by `import numpy as np` only
+        self.gen_sig = {}  # gen function -> parameter names (from functions/gen.py of the tree), for keyword arguments
         self.rp_names = set()  # local names that stand for self.run_params (single assignment `rp = self.run_params`)
         self.ever = set()  # every LOCAL name (per function scope: (scope id, name)) that stood for a protected variable
         self.scopes = []  # FunctionDefs whose bodies were translated (run + inlined helpers), for the closure check
@@ -216,6 +220,8 @@ class Tr:
         reference to a protected variable; else the reason.  No side effects."""
         par = _parents(node)
         for n in ast.walk(node):
+            if isinstance(n, (ast.Return, ast.Yield, ast.YieldFrom, ast.Await)):
+                return "a second exit (return / yield / await) of the function: the statements after it would not be straight-line code"
             if isinstance(n, ast.Attribute) and n.attr == "hc":
                 return f"access to the criteria dictionary outside the grammar: {ast.unparse(n)[:60]}"
             if isinstance(n, ast.Name) and n.id in DENY_NAMES:
@@ -326,6 +332,30 @@ class Tr:
             return True
         return isinstance(v, ast.Name) and v.id in self.rp_names
 
+    def _args(self, call):
+        """the arguments of a `gen.f(...)` call in the order of f's parameters (keywords bound through the signature read
+        from functions/gen.py of the same tree); a parameter left to its default is None"""
+        f = call.func.attr
+        if any(isinstance(a_, ast.Starred) for a_ in call.args) or any(kw.arg is None for kw in call.keywords):
+            raise Fail(f"gen.{f}: starred arguments are outside the grammar")
+        if not call.keywords:
+            return list(call.args)
+        sig = self.gen_sig.get(f)
+        if sig is None:
+            raise Fail(f"gen.{f}: keyword arguments, and the signature of gen.{f} could not be read")
+        out = list(call.args) + [None] * (len(sig) - len(call.args))
+        if len(call.args) > len(sig):
+            raise Fail(f"gen.{f}: too many arguments")
+        for kw in call.keywords:
+            if kw.arg not in sig or out[sig.index(kw.arg)] is not None:
+                raise Fail(f"gen.{f}: unknown / repeated keyword {kw.arg}")
+            out[sig.index(kw.arg)] = kw.value
+        while out and out[-1] is None:
+            out.pop()
+        if any(a_ is None for a_ in out):
+            raise Fail(f"gen.{f}: an argument before a given one is left to its default")
+        return out
+
     def _src(self, node):
         """the tracked variable a plain-name argument of a modelled call stands for"""
         return self.r(_name(node))
@@ -418,16 +448,15 @@ class Tr:
                     return
             if _is_call(val, "gen"):
                 f = val.func.attr
-                if val.keywords or any(isinstance(a_, ast.Starred) for a_ in val.args):
-                    raise Fail(f"gen.{f}: keyword / starred arguments are outside the grammar")
+                args_ = self._args(val)
                 if f in CRIT1:
-                    if len(val.args) != (1 if f == "HC_conj" else 2):
+                    if len(args_) != (1 if f == "HC_conj" else 2):
                         raise Fail(f"gen.{f} call form")
-                    src = self._src(val.args[0])
+                    src = self._src(args_[0])
                     if f == "HC_conj":
                         c = "Crit.conj"
                     else:
-                        c = f"Crit.{CRIT1[f]} {self.thr_of(val.args[1])}"
+                        c = f"Crit.{CRIT1[f]} {self.thr_of(args_[1])}"
                     dTn, dMn = _names(tgt)
                     if dTn == dMn:
                         raise Fail(f"gen.{f}: table and mask bound to the same name")
@@ -439,10 +468,10 @@ class Tr:
                         self.tblof[dT] = srctb
                     return
                 if f == "HC_phi_comp":
-                    if len(val.args) != 3:
+                    if len(args_) != 3:
                         raise Fail("HC_phi_comp call form")
-                    src = self._src(val.args[0])
-                    t1, t2 = self.thr_of(val.args[1]), self.thr_of(val.args[2])
+                    src = self._src(args_[0])
+                    t1, t2 = self.thr_of(args_[1]), self.thr_of(args_[2])
                     d3n, d4n = _names(tgt)
                     if d3n == d4n:
                         raise Fail("HC_phi_comp: both masks bound to the same name")
@@ -451,13 +480,13 @@ class Tr:
                     self.tracked |= {d3, d4}
                     return
                 if f == "applymask":
-                    if len(val.args) != 3:
+                    if len(args_) != 3:
                         raise Fail("applymask call form")
-                    l = self._src(val.args[0])
+                    l = self._src(args_[0])
                     if l not in self.lists:
                         raise Fail(f"applymask on something that is not a tracked list: {l}")
-                    m = self._src(val.args[1])
-                    self.inert(val.args[2], "third argument of applymask")
+                    m = self._src(args_[1])
+                    self.inert(args_[2], "third argument of applymask")
                     elts = self.listelts.get(l, [])
                     tbs = [self.tblof.get(e) for e in elts]
                     tn = _names(tgt)
@@ -472,10 +501,10 @@ class Tr:
                             self.tblof[d] = tb
                     return
                 if f == "SC_apply":
-                    if len(val.args) < 3:
+                    if len(args_) < 3:
                         raise Fail("SC_apply call form")
-                    args = [self._src(a) for a in val.args[:3]]
-                    for a_ in val.args[3:]:
+                    args = [self._src(a) for a in args_[:3]]
+                    for a_ in args_[3:]:
                         self.inert(a_, "argument of SC_apply")
                     if guards:
                         raise Fail("SC_apply under a guard")
@@ -671,7 +700,17 @@ def find_run(trees, mod, cls):
 
 
 def read_sources(repo):
-    return {mod: open(os.path.join(repo, "src", "pyoma2", "algorithms", f"{mod}.py")).read() for mod in ("ssi", "plscf")}
+    srcs = {mod: open(os.path.join(repo, "src", "pyoma2", "algorithms", f"{mod}.py")).read() for mod in ("ssi", "plscf")}
+    srcs["gen"] = open(os.path.join(repo, "src", "pyoma2", "functions", "gen.py")).read()  # signatures only (keyword arguments)
+    return srcs
+
+
+def _gen_signatures(text):
+    out = {}
+    for n in _parse(text).body:
+        if isinstance(n, ast.FunctionDef) and not (n.args.vararg or n.args.kwarg or n.args.kwonlyargs):
+            out[n.name] = [a.arg for a in n.args.posonlyargs + n.args.args]
+    return out
 
 
 def _top_bindings(tree, name):
@@ -684,14 +723,16 @@ def _module_ok(tree, mod):
     pyoma2.functions (bound once, by import); returns whether `np` is numpy"""
     for name in ("gen", mod):
         b = _top_bindings(tree, name)
-        if not (
-            len(b) == 1
-            and isinstance(b[0], ast.ImportFrom)
-            and b[0].module == "pyoma2.functions"
-            and b[0].level == 0
-            and any(a.name == name and a.asname in (None, name) for a in b[0].names)
-        ):
-            raise Fail(f"algorithms/{mod}.py: `{name}` is not bound (once) by `from pyoma2.functions import {name}`")
+        ok = len(b) == 1 and (
+            (
+                isinstance(b[0], ast.ImportFrom)
+                and (b[0].module, b[0].level) in (("pyoma2.functions", 0), ("functions", 2))
+                and any(a.name == name and a.asname in (None, name) for a in b[0].names)
+            )
+            or (isinstance(b[0], ast.Import) and any(a.name == f"pyoma2.functions.{name}" and a.asname == name for a in b[0].names))
+        )
+        if not ok:
+            raise Fail(f"algorithms/{mod}.py: `{name}` is not bound (once) by an import of pyoma2.functions.{name}")
     b = _top_bindings(tree, "np")
     return len(b) == 1 and isinstance(b[0], ast.Import) and any(a.name == "numpy" and a.asname == "np" for a in b[0].names)
 
@@ -718,6 +759,7 @@ def translate_sources(srcs, classes=None):
     classes = CLASSES if classes is None else classes
     trees = {mod: _parse(srcs[mod]) for mod in ("ssi", "plscf")}
     np_ok = {mod: _module_ok(trees[mod], mod) for mod in trees}
+    gen_sig = _gen_signatures(srcs["gen"]) if "gen" in srcs else {}
     out = []
     out.append("import PyomaVerif.Model.HcProg")
     out.append("/-! GENERATED by harness/translate_hc.py from /repo/src/pyoma2/algorithms/{ssi,plscf}.py — do not edit. -/")
@@ -750,6 +792,7 @@ def translate_sources(srcs, classes=None):
                 if isinstance(m_, ast.FunctionDef) and m_.name != "run":
                     t.helpers["self." + m_.name] = m_
         t.np_ok = np_ok[mod]
+        t.gen_sig = gen_sig
         t.scope = fn
         t.scopes.append(fn)
         if fn.decorator_list:
